@@ -52,8 +52,11 @@ CHECKS = {
          "contracts + VC generation; bounded: exhaustive table sets", "5/C09"),
  "C10": ("other", "format_descriptor is proved; _expand_decay_modes (recursive in-place expansion) is bounded: exhaustive small table sets, path count "
          "= sum of products, descriptors as multisets.", "str.format trusted.", "bounded: exhaustive table sets", "5/C10"),
- "C11": ("other", "Bounded: exhaustive chain shapes (incl. repeated decaying particles), mode/chain/parser round trips, all 806 PDG IDs.",
-         "decay.py classes not yet under contract.", "bounded: exhaustive shapes", "5/C11"),
+ "C11": ("other", "Proved per function: DaughtersDict.__init__/to_list (names with multiplicities, one canonical order), DecayMode.__init__ (incl. fs= route), "
+         "to_dict, from_dict (all but the multiplicities through its private deep copy), _get_modes, _get_fs. The round trips as a whole, DecayChain "
+         "and the string / PDG-ID constructors are bounded: exhaustive chain shapes (incl. repeated decaying particles), mode/chain/parser round "
+         "trips, all 806 PDG IDs.",
+         "The composition to_dict;from_dict = identity is a paper argument over the two contracts; DecayChain.*, _build_decay_modes not under contract.", "bounded: exhaustive shapes", "5/C11"),
  "C12": ("other", "Bounded stand-in for the fix-point loop: every acyclic shape up to 6 decaying particles, all stable subsets, all permutations "
          "(<=4 entries), exact Fractions.", "No unbounded proof of the fix-point result is attempted (nonlinear weighted multiset invariant).",
          "bounded: exhaustive shapes with exact rationals", "5/C12"),
